@@ -64,6 +64,8 @@ type PkgDesc struct {
 	// Constraints (C16)
 	RequireOpenShift bool   `json:"requireOpenShift,omitempty"`
 	KubeRange        string `json:"kubeRange,omitempty"`
+	// OpenShiftRange: a platformVersion constraint on OpenShift (only evaluated on OpenShift clusters)
+	OpenShiftRange string `json:"openShiftRange,omitempty"`
 	Unique           bool   `json:"unique,omitempty"`
 	// ConfigRequired makes config.label a required property.
 	ConfigRequired bool `json:"configRequired,omitempty"`
@@ -299,13 +301,16 @@ func (d PkgDesc) ManifestYAML() string {
 			}
 		}
 	}
-	if d.RequireOpenShift || d.KubeRange != "" || d.Unique {
+	if d.RequireOpenShift || d.KubeRange != "" || d.Unique || d.OpenShiftRange != "" {
 		sb.WriteString("  constraints:\n")
 		if d.RequireOpenShift {
 			sb.WriteString("  - platform: [OpenShift]\n")
 		}
 		if d.KubeRange != "" {
 			sb.WriteString("  - platformVersion:\n      name: Kubernetes\n      range: \"" + d.KubeRange + "\"\n")
+		}
+		if d.OpenShiftRange != "" {
+			sb.WriteString("  - platformVersion:\n      name: OpenShift\n      range: \"" + d.OpenShiftRange + "\"\n")
 		}
 		if d.Unique {
 			sb.WriteString("  - uniqueInScope: {}\n")
